@@ -66,6 +66,15 @@ def functions(tier):
     """
     return H.views_ok({W}, {k}, val, {wv}, wsel, hi, lo, newbits, q)
 ''', lambda a, k=k, wv=wv, W=W: (H.views_ok(W, k, a[0], wv, a[1], a[2], a[3], a[4], a[5]), f"views kind {k} write-view {wv} read-view {a[1]} slice [{a[2]}:{a[3]}] value {a[0]} new {a[4]} qualifier {a[5]}")))
+    for k, how in itertools.product(range(3), range(4)):
+        n = f"c13_arraycopy_{k}_{how}"
+        fs.append((n, f'''def {n}(n: int, c: int, val: int, idx: int, newv: int) -> bool:
+    """
+    pre: 1 <= n <= 3 and 1 <= c <= 3 and 0 <= val <= 7 and 0 <= idx <= 2 and 0 <= newv <= 7
+    post: _
+    """
+    return H.array_copy_ok({k}, n, c, val, idx, newv, {how})
+''', lambda a, k=k, how=how: (H.array_copy_ok(k, a[0], a[1], a[2], a[3], a[4], how), f"array copy kind {k} how {how} width {a[0]} count {a[1]} value {a[2]} index {a[3]} new {a[4]}")))
     for k, path in itertools.product(range(3), range(8)):
         n = f"c13_valueview_{k}_{path}"
         fs.append((n, f'''def {n}(val: int, hi: int, lo: int, newbits: int) -> bool:
@@ -111,7 +120,7 @@ def _set(P, bits, lo, w, val, W):
 
 
 def view_cells():
-    rd, wr = [], []
+    rd, wr, wr2 = [], [], []
     for rk in ("BV", "U", "S"):
         root = Ty(rk, RW)
         for ci, chain in enumerate(CHAINS):
@@ -134,14 +143,42 @@ def view_cells():
                            lambda P, a, root=root, lo=lo, w=w: P.wrap(P.shr(SP._bits(P, a, root), lo), w, False)))
             wr.append(Cell(f"view-iterate-write|{rk}{src}", [("z", root), ("v", BV(w))], root, f"{{o}} <<= {{z}}\nfor c13i, c13b in enumerate({{o}}{src}):\n    c13b <<= {{v}}[c13i]",
                            lambda P, z, v, root=root, lo=lo, w=w: SP._from_bits(P, _set(P, SP._bits(P, z, root), lo, w, v, RW), root)))
-    return rd, wr
+    # accessor methods of qualified objects: left/msb = upper bits, right/lsb = lower bits, by count or by rest
+    for rk in ("BV", "U", "S"):
+        root = Ty(rk, 8)
+        for meth, upper in (("left", True), ("msb", True), ("right", False), ("lsb", False)):
+            for form, cnt in (("{m}(3)", 3), ("{m}(count=5)", 5), ("{m}(rest=3)", 5), ("{m}(rest=6)", 2), ("{m}(2, 6)", 2), ("{m}()", 1)):
+                call = form.format(m=meth)
+                lo = 8 - cnt if upper else 0
+                if form == "{m}()":
+                    rd.append(Cell(f"view-accessor|{rk}.{call}", [("a", root)], BIT, f"{{o}} <<= {{a}}.{call}",
+                                   lambda P, a, root=root, lo=lo: P.wrap(P.shr(SP._bits(P, a, root), lo), 1, False)))
+                    continue
+                rd.append(Cell(f"view-accessor|{rk}.{call}", [("a", root)], BV(cnt), f"{{o}} <<= {{a}}.{call}.bitvector",
+                               lambda P, a, root=root, lo=lo, cnt=cnt: P.wrap(P.shr(SP._bits(P, a, root), lo), cnt, False)))
+                wr.append(Cell(f"view-accessor-write|{rk}.{call}", [("z", root), ("v", BV(cnt))], root, f"{{o}} <<= {{z}}\n{{o}}.{call}.bitvector <<= {{v}}",
+                               lambda P, z, v, root=root, lo=lo, cnt=cnt: SP._from_bits(P, _set(P, SP._bits(P, z, root), lo, cnt, v, 8), root)))
+    # elements of an array signal are views too: slices, typed views and iteration over mem[i] keep the array index
+    for rk, tname in (("BV", "BitVector"), ("U", "Unsigned")):
+        et = Ty(rk, 4)
+        local = f"c13m{{cellno}} = Signal[Array[{tname}[4], 2]](name='c13m{{cellno}}')"
+        fill = "c13m{cellno}[0] <<= {a}\nc13m{cellno}[1] <<= {b}\n"
+        ins = [("a", et), ("b", et)]
+        rd.append(Cell(f"array-elem-iterate|{rk}", ins, BV(4), fill + "for c13i, c13b in enumerate(c13m{cellno}[1]):\n    {o}[c13i] <<= c13b", lambda P, a, b, et=et: SP._bits(P, b, et), local=local))
+        rd.append(Cell(f"array-elem-slice|{rk}", ins, BV(2), fill + "{o} <<= c13m{cellno}[1][2:1]", lambda P, a, b, et=et: P.wrap(P.shr(SP._bits(P, b, et), 1), 2, False), local=local))
+        rd.append(Cell(f"array-elem-view|{rk}", ins, S(4), fill + "{o} <<= c13m{cellno}[0].signed", lambda P, a, b, et=et: P.wrap(SP._bits(P, a, et), 4, True), local=local))
+        # two clocks: the element bits are registered by the first edge, the output copies the element at the second
+        wr2.append(Cell(f"array-elem-iterate-write|{rk}", [("z", et), ("v", BV(4))], et,
+                        "c13m{cellno}[0] <<= {z}\nfor c13i, c13b in enumerate(c13m{cellno}[1]):\n    c13b <<= {v}[c13i]\n{o} <<= c13m{cellno}[1]",
+                        lambda P, z, v, et=et: SP._from_bits(P, v, et), local=local))
+    return rd, wr, wr2
 
 
 def run_view_cells(rep, counts):
     wd = Workdir()
     try:
-        rd, wr = view_cells()
-        for ctx, cs in (("concurrent", rd), ("clocked", wr)):
+        rd, wr, wr2 = view_cells()
+        for ctx, cs in (("concurrent", rd), ("clocked", wr), ("clocked2", wr2)):
             for k in range(0, len(cs), 30):
                 for res in run_cells(rep, wd, cs[k:k + 30], ctx):
                     counts[res.status] = counts.get(res.status, 0) + 1
@@ -156,7 +193,7 @@ def run_view_cells(rep, counts):
                         counts["rejected-keys"] = counts.get("rejected-keys", []) + [key]
                     elif res.status != "vacuous":
                         rep.inconclusive_query(f"{key}: {res.detail}")
-        return len(rd) + len(wr)
+        return len(rd) + len(wr) + len(wr2)
     finally:
         wd.close()
 
